@@ -308,7 +308,41 @@ func (n *quotedString) Text() string {
 
 // String returns the SQL/JSON path-encoded quoted string.
 func (n *quotedString) String() string {
-	return strconv.Quote(n.str)
+	return quote(n.str)
+}
+
+// quote returns str as a double-quoted SQL/JSON path string literal. It is
+// [strconv.Quote], except that the two Go escapes the path lexer does not
+// read back, \a and \UXXXXXXXX, are written as \u0007 and \u{XXXXXX}.
+func quote(str string) string {
+	quoted := strconv.Quote(str)
+	if !strings.Contains(quoted, `\a`) && !strings.Contains(quoted, `\U`) {
+		return quoted
+	}
+
+	buf := new(strings.Builder)
+	for i := 0; i < len(quoted); i++ {
+		if quoted[i] != '\\' || i+1 >= len(quoted) {
+			buf.WriteByte(quoted[i])
+			continue
+		}
+
+		const uLen = 8 // number of hex digits in \UXXXXXXXX
+		switch next := quoted[i+1]; {
+		case next == 'a':
+			buf.WriteString(`\u0007`)
+			i++
+		case next == 'U' && i+1+uLen < len(quoted):
+			buf.WriteString(`\u{` + strings.TrimLeft(quoted[i+2:i+2+uLen], "0") + `}`)
+			i += 1 + uLen
+		default:
+			// Copy the escape, so that an escaped backslash is skipped as a pair.
+			buf.WriteByte(quoted[i])
+			buf.WriteByte(next)
+			i++
+		}
+	}
+	return buf.String()
 }
 
 // writeTo writes n.String to buf.
@@ -569,10 +603,10 @@ func (n *BinaryNode) writeTo(buf *strings.Builder, _, withParens bool) {
 		}
 		buf.WriteRune(')')
 	case BinarySubscript:
-		n.left.writeTo(buf, false, false)
+		writeOperand(buf, n.left, chained(n.left))
 		if n.right != nil {
 			buf.WriteString(" " + n.op.String() + " ")
-			n.right.writeTo(buf, false, false)
+			writeOperand(buf, n.right, chained(n.right))
 		}
 	case BinaryAnd, BinaryOr, BinaryEqual, BinaryNotEqual, BinaryLess,
 		BinaryGreater, BinaryLessOrEqual, BinaryGreaterOrEqual,
@@ -582,9 +616,9 @@ func (n *BinaryNode) writeTo(buf *strings.Builder, _, withParens bool) {
 			buf.WriteRune('(')
 		}
 
-		n.left.writeTo(buf, false, n.left.priority() <= n.priority())
+		writeOperand(buf, n.left, n.left.priority() <= n.priority() || chained(n.left))
 		buf.WriteString(" " + n.op.String() + " ")
-		n.right.writeTo(buf, false, n.right.priority() <= n.priority())
+		writeOperand(buf, n.right, n.right.priority() <= n.priority() || chained(n.right))
 
 		if withParens {
 			buf.WriteRune(')')
@@ -656,16 +690,16 @@ func (n *UnaryNode) writeTo(buf *strings.Builder, _, withParens bool) {
 	switch n.op {
 	case UnaryExists:
 		buf.WriteString("exists (")
-		n.operand.writeTo(buf, false, false)
+		writeOperand(buf, n.operand, chained(n.operand))
 		buf.WriteRune(')')
 	case UnaryNot, UnaryFilter:
 		buf.WriteString(n.op.String())
 		buf.WriteRune('(')
-		n.operand.writeTo(buf, false, false)
+		writeOperand(buf, n.operand, chained(n.operand))
 		buf.WriteRune(')')
 	case UnaryIsUnknown:
 		buf.WriteRune('(')
-		n.operand.writeTo(buf, false, false)
+		writeOperand(buf, n.operand, chained(n.operand))
 		buf.WriteString(") is unknown")
 	case UnaryPlus, UnaryMinus:
 		if withParens {
@@ -673,7 +707,7 @@ func (n *UnaryNode) writeTo(buf *strings.Builder, _, withParens bool) {
 		}
 
 		buf.WriteString(n.op.String())
-		n.operand.writeTo(buf, false, n.operand.priority() <= n.priority())
+		writeOperand(buf, n.operand, n.operand.priority() <= n.priority() || chained(n.operand))
 
 		if withParens {
 			buf.WriteRune(')')
@@ -710,6 +744,51 @@ func (n *UnaryNode) setNext(next Node) {
 // Next returns the next node, if any.
 func (n *UnaryNode) Next() Node {
 	return n.next
+}
+
+// chained returns true if node is an operation (binary, unary, or regex
+// expression) followed by accessors. As an operand such a node must be
+// parenthesized: (a + b).abs(), (exists (a)).type(), never a + b.abs().
+func chained(node Node) bool {
+	if node == nil || node.Next() == nil {
+		return false
+	}
+	switch node := node.(type) {
+	case *BinaryNode:
+		return node.op != BinaryDecimal && node.op != BinarySubscript
+	case *UnaryNode:
+		switch node.op {
+		case UnaryExists, UnaryNot, UnaryIsUnknown, UnaryPlus, UnaryMinus:
+			return true
+		default:
+			return false
+		}
+	case *RegexNode:
+		return true
+	default:
+		return false
+	}
+}
+
+// writeOperand writes node, the root of a path or an operand of an
+// operation, to buf. exists, ! and is unknown expressions followed by
+// accessors do not parenthesize themselves, so it writes the parentheses
+// for them: (exists (a)).type().
+func writeOperand(buf *strings.Builder, node Node, withParens bool) {
+	if unary, ok := node.(*UnaryNode); ok && unary.next != nil {
+		switch unary.op {
+		case UnaryExists, UnaryNot, UnaryIsUnknown:
+			head := *unary
+			head.next = nil
+			buf.WriteRune('(')
+			head.writeTo(buf, false, false)
+			buf.WriteRune(')')
+			unary.next.writeTo(buf, true, true)
+			return
+		default:
+		}
+	}
+	node.writeTo(buf, false, withParens)
 }
 
 // LinkNodes assembles nodes into a linked list, where a call to Next on each
@@ -910,8 +989,8 @@ func (n *RegexNode) writeTo(buf *strings.Builder, _, withParens bool) {
 		buf.WriteRune('(')
 	}
 
-	n.operand.writeTo(buf, false, n.operand.priority() <= n.priority())
-	fmt.Fprintf(buf, " like_regex %q%v", n.pattern, n.flags)
+	writeOperand(buf, n.operand, n.operand.priority() <= n.priority() || chained(n.operand))
+	fmt.Fprintf(buf, " like_regex %v%v", quote(n.pattern), n.flags)
 
 	if withParens {
 		buf.WriteRune(')')
@@ -976,7 +1055,7 @@ func (a *AST) String() string {
 	if !a.lax {
 		buf.WriteString("strict ")
 	}
-	a.root.writeTo(buf, false, true)
+	writeOperand(buf, a.root, true)
 	return buf.String()
 }
 
